@@ -49,6 +49,9 @@ fn main() {
                 o.flush(&mut out);
                 writeln!(out, "end").unwrap();
                 out.flush().unwrap();
+                if obs::HUNG.load(std::sync::atomic::Ordering::SeqCst) {
+                    std::process::exit(3);
+                }
             }
             _ => cur.push(toks),
         }
